@@ -239,6 +239,9 @@ func zzLKEq(a interface{}, b *zzLK) bool {
 var zzLKPool = []zzLK{{0, 0}, {0, 1}, {3, 2}, {^uint(0), 3}, {7, 4}, {1 << 63, 5}}
 
 // zzLKNew returns a fresh key object (never the object stored earlier: Equals, not identity, decides).
+// zzForceKey >= 0: the next concrete key is that pool entry (Shrink harness) instead of a choice
+var zzForceKey = -1
+
 func zzLKNew(sym bool, seen *[]*zzLK, poolN int) *zzLK {
 	var k *zzLK
 	if sym {
@@ -248,6 +251,10 @@ func zzLKNew(sym bool, seen *[]*zzLK, poolN int) *zzLK {
 		}
 		*seen = append(*seen, k)
 		return k
+	}
+	if zzForceKey >= 0 {
+		p := zzLKPool[zzForceKey]
+		return &zzLK{h: p.h, id: p.id}
 	}
 	p := zzLKPool[zzvf.Choose(zzMin(poolN, len(zzLKPool)))]
 	return &zzLK{h: p.h, id: p.id}
@@ -519,6 +526,9 @@ var zzPool_%(N)s = []%(kt)s{%(pool)s}
 func zzKey_%(N)s(ref *zzM_%(N)s, sym bool) %(kt)s {
 	if sym {
 		return %(sym)s
+	}
+	if zzForceKey >= 0 {
+		return zzPool_%(N)s[zzForceKey]
 	}
 	return zzPool_%(N)s[zzvf.Choose(zzMin(ref.poolN, len(zzPool_%(N)s)))]
 }
@@ -1090,8 +1100,49 @@ func ZZ_%(P)s_%(N)s_Symbolic() {
 	} else {
 		zzRun_%(N)s(true, 1, 1, 0)
 	}
-}''' % dict(N=N, P=P, pd=pooldesc, nops=len(t['ops']), dir=DIRECTIVE[(P, 'Pool')], dirs=DIRECTIVE[(P, 'Symbolic')],
+}%(shrink)s''' % dict(shrink=self.shrink(), N=N, P=P, pd=pooldesc, nops=len(t['ops']), dir=DIRECTIVE[(P, 'Pool')], dirs=DIRECTIVE[(P, 'Symbolic')],
             lkdoc=' (LinkedKey: symbolic Hash() and symbolic id, so collisions between unequal keys arise by solving)' if self.k == 'lk' else ''))
+
+    def shrink(self):
+        """C09 types with SetMax: maximum lowered below the size, then one insertion"""
+        t, N = self.t, self.N
+        if t['prop'] != 'C09' or 'setmax' not in t['ops']:
+            return ''
+        ins = [o for o in t['ops'] if o.startswith('put') or o.startswith('add')]
+        return '''
+
+var zzShrinkIns_%(N)s = []string{%(ins)s}
+
+// Shrink: three entries (the first three non-empty pool keys), then the maximum is lowered to 1 or 2 (below the size),
+// then ONE insertion -- every put/add variant, with a new key, the oldest or the newest key: the
+// maximum is enforced by that insertion (evicting from the end opposite to the insertion point) and
+// the complete observable state is compared with the model. Table capacities 1..3.
+//vf:paths=20000 deadline=4m
+func ZZ_%(P)s_%(N)s_Shrink() {
+	what := "%(N)s/shrink"
+	cfg := zzCfgAll[2*zzvf.Choose(3)+1]
+	m := zzNew_%(N)s(cfg.cap, cfg.lf)
+	ref := &zzM_%(N)s{poolN: 5}
+	for _, i := range []int{%(pre)s} {
+		zzForceKey = i
+		zzStep_%(N)s(m, ref, "%(put)s", false, what)
+	}
+	mx := 1 + zzvf.Choose(2)
+	m.SetMax(mx)
+	ref.max = mx
+	ref.overfull = true
+	ins := zzShrinkIns_%(N)s[zzvf.Choose(len(zzShrinkIns_%(N)s))]
+	zzForceKey = []int{%(last)s}[zzvf.Choose(3)]
+	zzStep_%(N)s(m, ref, ins, false, what)
+	zzForceKey = -1
+	if ref.diverged {
+		zzvf.Reach(what)
+		return
+	}
+	zzvf.Guard(what+"/enumerate/no-deadlock", func() { zzCheck_%(N)s(m, ref, what) })
+	zzvf.Reach(what)
+}''' % dict(N=N, P=t['prop'], ins=', '.join('"%s"' % o for o in ins), put=self.ins[0],
+                    pre='0, 1, 3' if self.k == 'str' else '0, 1, 2', last='4, 0, 3' if self.k == 'str' else '3, 0, 2')
 
     def generate(self):
         N, t = self.N, self.t
